@@ -39,7 +39,8 @@ COMMON = re.compile(
     r"        (?P<year>\d{4})"  # Year
     "        (?P<monthday>"
     r"            (?P<monthsep>[/:])?(?P<month>\d{2})"  # Month (optional)
-    r"            ((?P<daysep>[/:])?(?P<day>\d{2}))"  # Day (optional)
+    # Day (optional), with a separator if and only if the month has one
+    r"            ((?(monthsep)(?P<daysep>[/:]))(?P<day>\d{2}))"
     "        )?"
     "    )"
     ")?"
